@@ -211,6 +211,8 @@ def gen_lens(rng, nsurf=None, allow_mirror=True, allow_conic=True, allow_asphere
     fields = [[ymax * j / max(nf - 1, 1) if nf > 1 else ymax] for j in range(nf)]
     if nf > 1:
         fields[0] = [0.0]
+        if rng.random() < 0.3:          # fields entered in a non-increasing order (the code sorts copies, never the list)
+            rng.shuffle(fields)
     wl = [[0.4861327, 0], [0.5875618, 1], [0.6562725, 0]][:rng.randint(1, 3)]
     if not any(w[1] for w in wl):
         wl[0][1] = 1
